@@ -348,7 +348,10 @@ static void pick_next_locked(void)
 	for (int i = 0; i < NS; i++)
 		if (MS[i].waiting && !MS[i].ungated)
 			cand[n++] = i;
-	TOKEN = n ? cand[rndn(&GRNG, (uint32_t)n)] : -1;
+	if (FINISHING)
+		TOKEN = -3; /* draining: everybody stays at the gate until the driver stops it */
+	else
+		TOKEN = n ? cand[rndn(&GRNG, (uint32_t)n)] : -1;
 	pthread_cond_broadcast(&GC);
 }
 
@@ -358,7 +361,7 @@ static void gate(struct sim *s, int cancel_enabled)
 
 	if (!m)
 		return;
-	if (FINISHING || m->ungated) {
+	if (m->ungated) {
 		if (cancel_enabled)
 			pthread_testcancel();
 		return;
@@ -368,9 +371,11 @@ static void gate(struct sim *s, int cancel_enabled)
 	m->waiting = true;
 	STEPS++;
 	if (TOKEN == m->idx || TOKEN == -1)
-		pick_next_locked(); /* TOKEN == -2: the gate is held shut by the driver */
+		pick_next_locked(); /* TOKEN == -2 / -3: the gate is held shut by the driver */
+	else
+		pthread_cond_broadcast(&GC); /* the driver may be waiting for everybody to arrive */
 	pthread_cleanup_push(gate_unlock, NULL);
-	while (TOKEN != m->idx && !FINISHING && !m->ungated) {
+	while (TOKEN != m->idx && !m->ungated) {
 		/* a thread that is about to be stopped must not sit here with cancellation disabled: see __wrap_rtr_stop */
 		pthread_cond_wait(&GC, &GM);
 	}
@@ -689,9 +694,30 @@ static void run_fail_case(struct rng *r, long c)
 		if (watchdog)
 			CNT("c15/watchdog_fired_inconclusive");
 	}
+	/* drain: no thread gets the token any more; wait until every running thread has arrived at its next gate, so that
+	 * the shutdown below never runs concurrently with a fail-over callback (rtr_mgr_stop racing with a callback that
+	 * stops or starts the same sockets is outside the property) */
 	pthread_mutex_lock(&GM);
 	FINISHING = true;
-	pthread_cond_broadcast(&GC);
+	if (TOKEN == -1)
+		TOKEN = -3;
+	for (int spins = 0; spins < 20000; spins++) {
+		bool quiet = true;
+		struct timespec ts;
+
+		for (int i = 0; i < NS; i++)
+			if (MS[i].started && !MS[i].waiting)
+				quiet = false;
+		if (quiet && TOKEN == -3)
+			break;
+		clock_gettime(CLOCK_REALTIME, &ts);
+		ts.tv_nsec += 1000000;
+		if (ts.tv_nsec >= 1000000000) {
+			ts.tv_sec++;
+			ts.tv_nsec -= 1000000000;
+		}
+		pthread_cond_timedwait(&GC, &GM, &ts);
+	}
 	pthread_mutex_unlock(&GM);
 	rtr_mgr_stop(conf);
 	/* a fail-over callback that ran concurrently with rtr_mgr_stop may have started a group again: stop until quiet */
